@@ -499,6 +499,22 @@ func init() {
 			}
 			data := layoutProfile(rng, hdr, tags, rng.Intn(2) == 0)
 			c17Case(c, kind, data, want, ntags)
+			// cross-check of the extraction on a few small profiles: the runner's answer re-decided in the kernel
+			if c.runner != nil && len(data) <= 1200 && want != nil {
+				ans := c.runner.Ask("icc_desc " + hx(data))
+				if strings.HasPrefix(ans, "ok ") {
+					var alts []string
+					for _, h := range strings.Split(ans[3:], "|") {
+						bs := make([]byte, len(h)/2)
+						fmt.Sscanf(h, "%x", &bs)
+						alts = append(alts, coqBytes(bs))
+					}
+					xcheck("icc_desc", 16, fmt.Sprintf("run_description %s = Ok [%s]", coqBytes(data), strings.Join(alts, "; ")))
+				}
+			}
+		}
+		if st := writeXCheck(c.out+"/Gen", "From Coq Require Import List ZArith NArith. From Coq Require Import Strings.Byte. Import ListNotations.\nFrom PrismV Require Import IO.IO IO.Parse Icc.Icc."); st != nil {
+			c.res.GenStages = append(c.res.GenStages, st)
 		}
 		// real profiles
 		files := []string{"test-profiles/display-p3-v4-with-v2-desc.icc"}
